@@ -341,3 +341,294 @@ theorem C17_one_entry_per_entity (o : NyctAlertsOpts) (es : List Entity) :
     rw [ih, (passStep_spec o st e).1]; omega
 
 end Gtfs.Rt
+
+namespace Gtfs.Rt
+
+/-! ## the informed stops of a group over the whole feed -/
+
+/-- the stop an elevator alert informs: its platform, or its station when so configured -/
+def informedIdOf (o : NyctAlertsOpts) (e : Entity) : Option Str :=
+  (matchElevator e.id).map fun m => if o.useStationIds then m.1 else m.1 ++ m.2.1
+
+/-- the stops of the members of group `k`, in feed order (with repetitions) -/
+def memberStops (o : NyctAlertsOpts) (k : Str) (es : List Entity) : List Str :=
+  es.filterMap fun e => if groupKeyOf o e = some k then informedIdOf o e else none
+
+def stopSel (s : Str) : EntitySel := { stopId := some s }
+
+theorem firstOccurrences_snoc (l : List Str) (x : Str) :
+    firstOccurrences (l ++ [x]) = if (firstOccurrences l).contains x then firstOccurrences l else firstOccurrences l ++ [x] := by
+  simp [firstOccurrences, List.foldl_append]
+
+theorem mem_foldl_first (l acc : List Str) : ∀ x,
+    x ∈ l.foldl (fun acc k => if acc.contains k then acc else acc ++ [k]) acc ↔ x ∈ acc ∨ x ∈ l := by
+  induction l generalizing acc with
+  | nil => simp
+  | cons y r ih =>
+    intro x
+    simp only [List.foldl_cons, ih, List.mem_cons]
+    split
+    · next h =>
+      have hy : y ∈ acc := by simpa using h
+      constructor
+      · rintro (h1 | h1)
+        · exact Or.inl h1
+        · exact Or.inr (Or.inr h1)
+      · rintro (h1 | rfl | h1)
+        · exact Or.inl h1
+        · exact Or.inl hy
+        · exact Or.inr h1
+    · simp only [List.mem_append, List.mem_singleton]
+      constructor
+      · rintro ((h1 | h1) | h1)
+        · exact Or.inl h1
+        · exact Or.inr (Or.inl h1)
+        · exact Or.inr (Or.inr h1)
+      · rintro (h1 | h1 | h1)
+        · exact Or.inl (Or.inl h1)
+        · exact Or.inl (Or.inr h1)
+        · exact Or.inr h1
+
+theorem mem_firstOccurrences (l : List Str) (x : Str) : x ∈ firstOccurrences l ↔ x ∈ l := by
+  unfold firstOccurrences; rw [mem_foldl_first]; simp
+
+theorem nodup_foldl_first (l acc : List Str) (h : acc.Nodup) :
+    (l.foldl (fun acc k => if acc.contains k then acc else acc ++ [k]) acc).Nodup := by
+  induction l generalizing acc with
+  | nil => simpa using h
+  | cons y r ih =>
+    simp only [List.foldl_cons]
+    apply ih
+    split
+    · exact h
+    · next hc =>
+      rw [List.nodup_append]
+      refine ⟨h, by simp, ?_⟩
+      intro a ha b hb
+      simp only [List.mem_singleton] at hb
+      subst hb
+      intro e; subst e
+      exact hc (by simpa using ha)
+
+theorem nodup_firstOccurrences (l : List Str) : (firstOccurrences l).Nodup :=
+  nodup_foldl_first l [] (by simp)
+
+/-- adding a member's stop to the first member of its group -/
+theorem addInformedStop_stops (a : AlertMsg) (l : List Str) (x : Str) (h : a.informed = (firstOccurrences l).map stopSel) :
+    (addInformedStop a x).informed = (firstOccurrences (l ++ [x])).map stopSel := by
+  unfold addInformedStop
+  rw [firstOccurrences_snoc]
+  have hany : a.informed.any (fun e => e.stopId == some x) = (firstOccurrences l).contains x := by
+    rw [h]
+    induction firstOccurrences l with
+    | nil => rfl
+    | cons y r ih =>
+      simp only [List.map_cons, List.any_cons, List.contains_cons, ih, stopSel]
+      congr 1
+      by_cases e : y = x
+      · subst e; simp
+      · have e' : ¬ x = y := fun q => e q.symm
+        rw [Bool.eq_iff_iff]; simp [e, e']
+  rw [hany]
+  split
+  · exact h
+  · simp [h, stopSel]
+
+/-- a lone stop selector has no Mercury priority: the first member of a group is never skipped -/
+theorem effectLoop_stopSel (skipT : Bool) (s : Str) (eff : Option Int) :
+    effectLoop skipT [stopSel s] eff = (eff, false) := by
+  simp [effectLoop, priorityOf, stopSel]
+
+theorem alookup_append {κ α} [BEq κ] [LawfulBEq κ] (k : κ) (m m' : List (κ × α)) :
+    alookup k (m ++ m') = (alookup k m).or (alookup k m') := by
+  induction m with
+  | nil => simp [alookup]
+  | cons q r ih =>
+    simp only [List.cons_append, alookup]
+    split
+    · simp
+    · exact ih
+
+/-- invariant of the pre-pass after the entities `pre`: every group's recorded position holds the
+    group's first member, not skipped, under the group's id, informing exactly the distinct stops of
+    the members seen so far (in order of first appearance); a key without a group has no member yet -/
+def GInv (o : NyctAlertsOpts) (pre : List Entity) (st : AlertPass) : Prop :=
+  (∀ k i, alookup k st.groups = some i →
+    ∃ ent fa, st.done[i]? = some (ent, false) ∧ ent.id = k ∧ ent.alert = some fa ∧
+      fa.informed = (firstOccurrences (memberStops o k pre)).map stopSel) ∧
+  (∀ k, alookup k st.groups = none → memberStops o k pre = [])
+
+theorem memberStops_snoc (o : NyctAlertsOpts) (k : Str) (pre : List Entity) (e : Entity) :
+    memberStops o k (pre ++ [e]) = memberStops o k pre ++
+      (match (if groupKeyOf o e = some k then informedIdOf o e else none) with | some s => [s] | none => []) := by
+  simp only [memberStops, List.filterMap_append, List.filterMap_cons, List.filterMap_nil]
+  split <;> simp_all
+
+theorem getElem?_lt_of_some {α} (l : List α) (i : Nat) (x : α) (h : l[i]? = some x) : i < l.length := by
+  by_cases hi : i < l.length
+  · exact hi
+  · simp [List.getElem?_eq_none (Nat.le_of_not_lt hi)] at h
+
+theorem modifyAt_getElem? {α} (l : List α) (i j : Nat) (f : α → α) :
+    (modifyAt l i f)[j]? = (l[j]?).map fun x => if j = i then f x else x := by
+  simp [modifyAt, List.getElem?_mapIdx]
+
+theorem passStep_GInv (o : NyctAlertsOpts) (pre : List Entity) (st : AlertPass) (e : Entity) (h : GInv o pre st) :
+    GInv o (pre ++ [e]) (passStep o st e) := by
+  obtain ⟨h1, h2⟩ := h
+  cases hk : groupKeyOf o e with
+  | none =>
+    -- not an elevator alert: one entry is appended, groups and member stops are unchanged
+    have hms : ∀ k, memberStops o k (pre ++ [e]) = memberStops o k pre := by
+      intro k; rw [memberStops_snoc]; simp [hk]
+    have hst : (passStep o st e).groups = st.groups ∧ ∃ x, (passStep o st e).done = st.done ++ [x] := by
+      unfold passStep
+      split
+      · next a htu hv ha =>
+        have hm : matchElevator e.id = none := by simpa [groupKeyOf, htu, hv, ha] using hk
+        simp only [alertPassStep, hm]
+        exact ⟨trivial, _, rfl⟩
+      · refine ⟨?_, _, rfl⟩
+        first | rfl | trivial
+    obtain ⟨hg, x, hd⟩ := hst
+    constructor
+    · intro k i hl
+      rw [hg] at hl
+      obtain ⟨ent, fa, hd', hid, hal, hinf⟩ := h1 k i hl
+      refine ⟨ent, fa, ?_, hid, hal, by rw [hms]; exact hinf⟩
+      rw [hd, List.getElem?_append_left (getElem?_lt_of_some _ _ _ hd')]; exact hd'
+    · intro k hl
+      rw [hg] at hl
+      rw [hms]; exact h2 k hl
+  | some key =>
+    -- an elevator alert of group `key`
+    have hshape : ∃ a, e.tripUpdate = none ∧ e.vehicle = none ∧ e.alert = some a := by
+      unfold groupKeyOf at hk
+      split at hk
+      · next a h1 h2 h3 => exact ⟨a, h1, h2, h3⟩
+      · simp at hk
+    obtain ⟨a, htu, hv, ha⟩ := hshape
+    simp only [groupKeyOf, htu, hv, ha] at hk
+    cases hm : matchElevator e.id with
+    | none => simp [hm] at hk
+    | some m =>
+      obtain ⟨station, suffix, elevator⟩ := m
+      simp only [hm, Option.map_some, Option.some.injEq] at hk
+      have hkey : groupKeyOf o e = some key := by
+        unfold groupKeyOf; simp [htu, hv, ha, hm, hk]
+      have hinfId : informedIdOf o e = some (if o.useStationIds then station else station ++ suffix) := by
+        simp [informedIdOf, hm]
+      have hms_key : memberStops o key (pre ++ [e]) = memberStops o key pre ++ [if o.useStationIds then station else station ++ suffix] := by
+        rw [memberStops_snoc]; simp [hkey, hinfId]
+      have hms_other : ∀ k, k ≠ key → memberStops o k (pre ++ [e]) = memberStops o k pre := by
+        intro k hne; rw [memberStops_snoc]
+        have : groupKeyOf o e ≠ some k := by rw [hkey]; intro q; exact hne (Option.some.inj q).symm
+        simp [this]
+      have hstep : passStep o st e = alertPassStep o st e a := by
+        unfold passStep; simp [htu, hv, ha]
+      rw [hstep]
+      unfold alertPassStep
+      simp only [hm, hk]
+      cases hl : alookup key st.groups with
+      | some i =>
+        -- a later member
+        simp only
+        obtain ⟨ent, fa, hd', hid, hal, hinf⟩ := h1 key i hl
+        have hi := getElem?_lt_of_some _ _ _ hd'
+        constructor
+        · intro k j hlj
+          by_cases hkk : k = key
+          · subst hkk
+            rw [hl] at hlj; cases hlj
+            refine ⟨{ ent with alert := some (addInformedStop fa (if o.useStationIds then station else station ++ suffix)) },
+              addInformedStop fa (if o.useStationIds then station else station ++ suffix), ?_, hid, rfl, ?_⟩
+            · rw [List.getElem?_append_left (by rw [modifyAt_length]; exact hi), modifyAt_getElem?, hd']
+              simp [hal]
+            · rw [hms_key]; exact addInformedStop_stops fa _ _ hinf
+          · obtain ⟨ent', fa', hd'', hid', hal', hinf'⟩ := h1 k j hlj
+            have hj := getElem?_lt_of_some _ _ _ hd''
+            have hji : j ≠ i := by
+              intro q; subst q
+              rw [hd'] at hd''
+              cases hd''
+              exact hkk (hid'.symm.trans hid)
+            refine ⟨ent', fa', ?_, hid', hal', by rw [hms_other k hkk]; exact hinf'⟩
+            rw [List.getElem?_append_left (by rw [modifyAt_length]; exact hj), modifyAt_getElem?, hd'']
+            simp [hji]
+        · intro k hlk
+          have hkk : k ≠ key := by intro q; subst q; rw [hl] at hlk; cases hlk
+          rw [hms_other k hkk]; exact h2 k hlk
+      | none =>
+        -- the first member of a new group
+        simp only
+        have hempty := h2 key hl
+        constructor
+        · intro k j hlj
+          rw [alookup_append] at hlj
+          cases hlk : alookup k st.groups with
+          | some j' =>
+            rw [hlk] at hlj
+            simp only [Option.some_or, Option.some.injEq] at hlj
+            subst hlj
+            have hkk : k ≠ key := by intro q; subst q; rw [hl] at hlk; cases hlk
+            obtain ⟨ent', fa', hd'', hid', hal', hinf'⟩ := h1 k j' hlk
+            refine ⟨ent', fa', ?_, hid', hal', by rw [hms_other k hkk]; exact hinf'⟩
+            rw [List.getElem?_append_left (getElem?_lt_of_some _ _ _ hd'')]; exact hd''
+          | none =>
+            rw [hlk] at hlj
+            simp only [Option.none_or, alookup] at hlj
+            by_cases hkk : key = k
+            · subst hkk
+              simp only [beq_self_eq_true, if_true, Option.some.injEq] at hlj
+              subst hlj
+              simp only [nyctUpdatePlainAlert, addInformedStop, List.any_nil, Bool.false_eq_true, if_false, List.nil_append]
+              have hel := effectLoop_stopSel o.skipTimetabled (if o.useStationIds then station else station ++ suffix) (some Gen.NyctTables.elevatorEffect)
+              simp only [stopSel] at hel
+              simp only [hel, Bool.false_eq_true, if_false]
+              rw [hms_key, hempty]
+              split <;>
+                exact ⟨_, _, List.getElem?_concat_length, rfl, rfl, by simp [firstOccurrences, stopSel]⟩
+            · have : (key == k) = false := by simpa using hkk
+              rw [this] at hlj; simp at hlj
+        · intro k hlk
+          rw [alookup_append] at hlk
+          cases hlk' : alookup k st.groups with
+          | some j' => rw [hlk'] at hlk; simp at hlk
+          | none =>
+            rw [hlk'] at hlk
+            simp only [Option.none_or, alookup] at hlk
+            have hkk : k ≠ key := by
+              intro q; subst q; simp at hlk
+            rw [hms_other k hkk]; exact h2 k hlk'
+
+/-- **C17 (the stops of a group, over the whole feed).** After the pre-pass over any feed, every
+    group's recorded position holds one entry that is not skipped, carries the group's documented id,
+    and informs exactly the distinct stops (platform ids, or station ids when so configured) of all
+    the group's members, in order of first appearance -/
+theorem C17_group_stops (o : NyctAlertsOpts) (es : List Entity) (k : Str) (i : Nat)
+    (h : alookup k (es.foldl (passStep o) {}).groups = some i) :
+    ∃ ent fa, (es.foldl (passStep o) {}).done[i]? = some (ent, false) ∧ ent.id = k ∧ ent.alert = some fa ∧
+      fa.informed = (firstOccurrences (memberStops o k es)).map stopSel := by
+  suffices H : ∀ (es pre : List Entity) (st : AlertPass), GInv o pre st → GInv o (pre ++ es) (es.foldl (passStep o) st) by
+    have := H es [] {} ⟨by intro k i h; simp [alookup] at h, by intro k _; rfl⟩
+    simp only [List.nil_append] at this
+    exact this.1 k i h
+  intro es
+  induction es with
+  | nil => intro pre st h; simpa using h
+  | cons e r ih =>
+    intro pre st h
+    simp only [List.foldl_cons]
+    have := ih (pre ++ [e]) _ (passStep_GInv o pre st e h)
+    simpa using this
+
+/-- …a set, so independent of the order in which the members appear: the informed stops of group `k`
+    for two orders of the same feed have the same members, each once -/
+theorem C17_group_stops_perm (o : NyctAlertsOpts) (es es' : List Entity) (hp : es'.Perm es) (k : Str) :
+    (firstOccurrences (memberStops o k es')).Perm (firstOccurrences (memberStops o k es)) := by
+  rw [List.perm_ext_iff_of_nodup (nodup_firstOccurrences _) (nodup_firstOccurrences _)]
+  intro x
+  rw [mem_firstOccurrences, mem_firstOccurrences]
+  exact (hp.filterMap _).mem_iff
+
+end Gtfs.Rt
